@@ -463,7 +463,7 @@ func runC33(r *simrt.Run) {
 			if !r.Chance("ops", 1, 3) {
 				x.latency = time.Duration(1+r.Draw("ops", 30)) * time.Millisecond
 			}
-			if r.Draw("fault", 10) == 1 {
+			if r.Draw("fault", 14) == 1 {
 				x.noReply = true
 			}
 			w.resps = append(w.resps, x)
@@ -480,8 +480,8 @@ func runC33(r *simrt.Run) {
 			timeout = 3 * time.Millisecond
 		}
 		var pause time.Duration
-		if r.Chance("cfg", 1, 3) {
-			pause = time.Duration(1+r.Draw("cfg", 20)) * time.Millisecond
+		if r.Chance("cfg", 1, 2) {
+			pause = time.Duration(1+r.Draw("cfg", 30)) * time.Millisecond
 		}
 		lateReader := r.Chance("cfg", 1, 2)
 		r.Logf("cfg: consumer timeout=%v pause=%v lateReader=%v", timeout, pause, lateReader)
